@@ -210,7 +210,7 @@ mod verif_kani {
         core::mem::forget(t);
     }
 
-    //@harness props=C18,C12 kind=bounded fns=Token::clear_comments bound="3 leading and 2 trailing trivia; kinds, reference numbers and the token position symbolic" budget=300
+    //@harness props=C18,C12 kind=bounded fns=Token::clear_comments bound="3 leading and 2 trailing trivia; kinds, reference numbers and the token position symbolic" budget=400
     //@ desc="clear_comments: leading'/trailing' are exactly the order-preserving sub-sequences of non-comment trivia; the code token (position kind, range, line, content) is unchanged"
     #[kani::proof]
     #[kani::unwind(5)]
@@ -218,7 +218,7 @@ mod verif_kani {
         check_filter(0);
     }
 
-    //@harness props=C18,C12 kind=bounded fns=Token::clear_whitespaces bound="3 leading and 2 trailing trivia; kinds, reference numbers and the token position symbolic" budget=300
+    //@harness props=C18,C12 kind=bounded fns=Token::clear_whitespaces bound="3 leading and 2 trailing trivia; kinds, reference numbers and the token position symbolic" budget=400
     //@ desc="clear_whitespaces: leading'/trailing' are exactly the order-preserving sub-sequences of comment trivia; the code token is unchanged"
     #[kani::proof]
     #[kani::unwind(5)]
@@ -226,7 +226,7 @@ mod verif_kani {
         check_filter(1);
     }
 
-    //@harness props=C18,C12 kind=bounded fns=Token::filter_comments bound="3 leading and 2 trailing trivia; kinds, reference numbers, token position symbolic; the filter answers one symbolic-but-fixed boolean for every comment" budget=300
+    //@harness props=C18,C12 kind=bounded fns=Token::filter_comments bound="3 leading and 2 trailing trivia; kinds, reference numbers, token position symbolic; the filter answers one symbolic-but-fixed boolean for every comment" budget=400
     //@ desc="filter_comments(f): a trivia is kept iff it is not a comment or f accepts it, order preserved; whitespace is never dropped; the code token is unchanged"
     #[kani::proof]
     #[kani::unwind(5)]
@@ -348,7 +348,7 @@ mod verif_kani {
         core::mem::forget(code);
     }
 
-    //@harness props=C12,C18 kind=bounded fns=Token::insert_leading_trivia bound="token with 2 leading trivia; insertion index over ALL usize values" budget=300
+    //@harness props=C12,C18 kind=bounded fns=Token::insert_leading_trivia bound="token with 2 leading trivia; insertion index over ALL usize values" budget=400
     //@ desc="insert_leading_trivia(index, t) never panics, for any index: the trivia is inserted at position min(index, len); the other leading trivia keep their order; trailing trivia and the code token are untouched"
     #[kani::proof]
     #[kani::unwind(5)]
